@@ -1,3 +1,770 @@
+/- Lemmas/C06Poly.lean — semantics of coefficient blocks in Mathlib's `MvPolynomial (Fin 6) K` and the kernel lemmas. -/
+import Mathlib.Algebra.MvPolynomial.PDeriv
+import Mathlib.Algebra.MvPolynomial.Eval
+import Mathlib.Data.List.Perm.Basic
+import Mathlib.Algebra.BigOperators.Group.List.Basic
 import HitenModel.Lemmas.C06
+
+set_option linter.unusedSectionVars false
+
+open MvPolynomial
 namespace HitenModel.C06
+
+/-! ### list level -/
+section lists
+variable {K : Type}
+
+@[simp] theorem length_zeros [OfNat K 0] (n : Nat) : (zeros n : List K).length = n := by simp [zeros]
+
+theorem getD_zeros [OfNat K 0] (n i : Nat) : (zeros n : List K).getD i 0 = 0 := by
+  unfold zeros
+  rw [List.getD_eq_getElem?_getD, List.getElem?_replicate]
+  split <;> rfl
+
+@[simp] theorem length_addAt [Add K] : ∀ (p : List K) (i : Nat) (v : K), (addAt p i v).length = p.length
+  | [], _, _ => rfl
+  | _ :: _, 0, _ => rfl
+  | _ :: as, n + 1, v => by simp [addAt, length_addAt as n v]
+
+theorem getD_addAt [Add K] (z : K) : ∀ (p : List K) (i : Nat) (v : K) (j : Nat),
+    (addAt p i v).getD j z = if j = i ∧ i < p.length then p.getD j z + v else p.getD j z
+  | [], _, _, _ => by simp [addAt]
+  | a :: as, 0, v, 0 => by simp [addAt]
+  | a :: as, 0, v, j + 1 => by simp [addAt]
+  | a :: as, n + 1, v, 0 => by simp [addAt]
+  | a :: as, n + 1, v, j + 1 => by
+    simp only [addAt, List.getD_cons_succ, getD_addAt z as n v j, List.length_cons]
+    simp
+
+@[simp] theorem length_applyUpd [Add K] : ∀ (ups : List (Nat × K)) (acc : List K), (applyUpd acc ups).length = acc.length
+  | [], _ => rfl
+  | u :: us, acc => by
+    unfold applyUpd; rw [List.foldl_cons]
+    have := length_applyUpd us (addAt acc u.1 u.2)
+    unfold applyUpd at this; rw [this, length_addAt]
+
+theorem length_polyAdd [Add K] (p q : List K) : (polyAdd p q).length = min p.length q.length := by
+  simp [polyAdd]
+
+theorem getD_polyAdd [AddZeroClass K] (p q : List K) (h : p.length = q.length) (j : Nat) :
+    (polyAdd p q).getD j 0 = p.getD j 0 + q.getD j 0 := by
+  unfold polyAdd
+  by_cases hj : j < p.length
+  · have hq : j < q.length := h ▸ hj
+    rw [List.getD_eq_getElem?_getD, List.getD_eq_getElem?_getD, List.getD_eq_getElem?_getD,
+      List.getElem?_zipWith, List.getElem?_eq_getElem hj, List.getElem?_eq_getElem hq]
+    rfl
+  · have hq : ¬ j < q.length := h ▸ hj
+    rw [List.getD_eq_default _ _ (by simp; omega), List.getD_eq_default _ _ (by omega),
+      List.getD_eq_default _ _ (by omega), add_zero]
+
+end lists
+
+/-! ### semantics -/
+
+/-- the monomial of an exponent list -/
+noncomputable def mono (k : List Nat) : Fin 6 →₀ ℕ := Finsupp.equivFunOnFinite.symm (fun i => k.getD i.val 0)
+
+@[simp] theorem mono_apply (k : List Nat) (i : Fin 6) : mono k i = k.getD i.val 0 := rfl
+
+section sem
+variable {K : Type} [CommSemiring K]
+
+/-- the polynomial a coefficient block of degree `d` stands for: slot `i` is the coefficient of the monomial
+`decode i d` -/
+noncomputable def toMv (clmo : List (List Nat)) (d : Nat) (p : List K) : MvPolynomial (Fin 6) K :=
+  ∑ i ∈ Finset.range p.length, monomial (mono (decode clmo i d)) (p.getD i 0)
+
+/-- one `arr[idx] += v` statement, read as a polynomial -/
+noncomputable def term (clmo : List (List Nat)) (d : Nat) (u : Nat × K) : MvPolynomial (Fin 6) K :=
+  monomial (mono (decode clmo u.1 d)) u.2
+
+theorem toMv_zeros (clmo : List (List Nat)) (d n : Nat) : toMv clmo d (zeros n : List K) = 0 := by
+  unfold toMv
+  apply Finset.sum_eq_zero
+  intro i _
+  rw [getD_zeros, monomial_zero]
+
+theorem toMv_addAt (clmo : List (List Nat)) (d : Nat) (p : List K) (idx : Nat) (v : K) (h : idx < p.length) :
+    toMv clmo d (addAt p idx v) = toMv clmo d p + term clmo d (idx, v) := by
+  unfold toMv term
+  rw [length_addAt]
+  have : ∀ i ∈ Finset.range p.length, monomial (mono (decode clmo i d)) ((addAt p idx v).getD i 0)
+      = monomial (mono (decode clmo i d)) (p.getD i 0) + (if i = idx then monomial (mono (decode clmo idx d)) v else 0) := by
+    intro i _
+    rw [getD_addAt]
+    by_cases hi : i = idx
+    · subst hi; simp [h]
+    · simp [hi]
+  rw [Finset.sum_congr rfl this, Finset.sum_add_distrib, Finset.sum_ite_eq' (Finset.range p.length) idx]
+  simp [h]
+
+theorem toMv_applyUpd (clmo : List (List Nat)) (d : Nat) : ∀ (ups : List (Nat × K)) (acc : List K),
+    (∀ u ∈ ups, u.1 < acc.length) → toMv clmo d (applyUpd acc ups) = toMv clmo d acc + (ups.map (term clmo d)).sum
+  | [], acc, _ => by simp [applyUpd]
+  | u :: us, acc, h => by
+    have h1 : u.1 < acc.length := h u (by simp)
+    have ih := toMv_applyUpd clmo d us (addAt acc u.1 u.2) (fun w hw => by rw [length_addAt]; exact h w (by simp [hw]))
+    unfold applyUpd at ih ⊢
+    rw [List.foldl_cons, ih, toMv_addAt clmo d acc u.1 u.2 h1, List.map_cons, List.sum_cons, add_assoc]
+
+theorem toMv_polyAdd (clmo : List (List Nat)) (d : Nat) (p q : List K) (h : p.length = q.length) :
+    toMv clmo d (polyAdd p q) = toMv clmo d p + toMv clmo d q := by
+  unfold toMv
+  rw [length_polyAdd, ← h, Nat.min_self, ← Finset.sum_add_distrib]
+  apply Finset.sum_congr rfl
+  intro i _
+  rw [getD_polyAdd p q h, map_add]
+
+theorem length_reduceRows (n : Nat) : ∀ (rows : List (List K)) (acc : List K), acc.length = n → (∀ r ∈ rows, r.length = n) →
+    (rows.foldl polyAdd acc).length = n
+  | [], acc, h, _ => h
+  | r :: rs, acc, h, hr => by
+    rw [List.foldl_cons]
+    apply length_reduceRows n rs
+    · rw [length_polyAdd, h, hr r (by simp), Nat.min_self]
+    · intro r' hr'; exact hr r' (by simp [hr'])
+
+theorem toMv_foldl_polyAdd (clmo : List (List Nat)) (d n : Nat) : ∀ (rows : List (List K)) (acc : List K), acc.length = n →
+    (∀ r ∈ rows, r.length = n) →
+    toMv clmo d (rows.foldl polyAdd acc) = toMv clmo d acc + (rows.map (toMv clmo d)).sum
+  | [], acc, _, _ => by simp
+  | r :: rs, acc, h, hr => by
+    have hrn : r.length = n := hr r (by simp)
+    rw [List.foldl_cons, toMv_foldl_polyAdd clmo d n rs (polyAdd acc r) (by rw [length_polyAdd, h, hrn, Nat.min_self])
+      (fun r' hr' => hr r' (by simp [hr'])), toMv_polyAdd clmo d acc r (by rw [h, hrn]), List.map_cons, List.sum_cons, add_assoc]
+
+theorem length_threadRow (n : Nat) (upd : Nat → List (Nat × K)) (iters : List Nat) : (threadRow n upd iters).length = n := by
+  simp [threadRow]
+
+theorem length_parKernel (n : Nat) (upd : Nat → List (Nat × K)) (sched : List (List Nat)) : (parKernel n upd sched).length = n := by
+  unfold parKernel reduceRows
+  apply length_reduceRows n _ _ (length_zeros n)
+  intro r hr
+  obtain ⟨it, _, rfl⟩ := List.mem_map.mp hr
+  exact length_threadRow n upd it
+
+/-- the polynomial computed by the parallel kernel, for EVERY schedule: the sum of all update terms of all outer
+iterations the schedule executes (each in whatever thread, in whatever order) -/
+theorem toMv_parKernel (clmo : List (List Nat)) (d n : Nat) (upd : Nat → List (Nat × K)) (hupd : ∀ i, ∀ u ∈ upd i, u.1 < n)
+    (sched : List (List Nat)) :
+    toMv clmo d (parKernel n upd sched) = (sched.flatten.map fun i => ((upd i).map (term clmo d)).sum).sum := by
+  unfold parKernel reduceRows
+  rw [toMv_foldl_polyAdd clmo d n _ _ (length_zeros n) (by
+    intro r hr
+    obtain ⟨it, _, rfl⟩ := List.mem_map.mp hr
+    exact length_threadRow n upd it), toMv_zeros, zero_add, List.map_map]
+  induction sched with
+  | nil => simp
+  | cons it rest ih =>
+    rw [List.map_cons, List.sum_cons, ih, List.flatten_cons, List.map_append, List.sum_append]
+    congr 1
+    simp only [Function.comp, threadRow]
+    rw [toMv_applyUpd clmo d _ _ (by
+      intro u hu
+      obtain ⟨i, _, hi⟩ := List.mem_flatMap.mp hu
+      rw [length_zeros]; exact hupd i u hi), toMv_zeros, zero_add]
+    induction it with
+    | nil => simp
+    | cons a as ih2 => rw [List.flatMap_cons, List.map_append, List.sum_append, ih2, List.map_cons, List.sum_cons]
+
+theorem sum_map_range_eq_finset {M : Type} [AddCommMonoid M] (f : Nat → M) (n : Nat) :
+    ((List.range n).map f).sum = ∑ i ∈ Finset.range n, f i := by
+  induction n with
+  | zero => simp
+  | succ n ih => rw [List.range_succ, List.map_append, List.sum_append, ih, Finset.sum_range_succ]; simp
+
+/-- schedule independence at the level of the represented polynomial: any schedule that executes every outer iteration
+exactly once (any assignment to threads, any order) yields `Σ_i Σ_{updates of i}` -/
+theorem toMv_parKernel_perm (clmo : List (List Nat)) (d n N : Nat) (upd : Nat → List (Nat × K)) (hupd : ∀ i, ∀ u ∈ upd i, u.1 < n)
+    (sched : List (List Nat)) (hs : sched.flatten.Perm (List.range N)) :
+    toMv clmo d (parKernel n upd sched) = ∑ i ∈ Finset.range N, ((upd i).map (term clmo d)).sum := by
+  rw [toMv_parKernel clmo d n upd hupd, ← sum_map_range_eq_finset]
+  exact (hs.map _).sum_eq
+
+end sem
+
+/-! ### exponent lists -/
+
+theorem length_decodePacked (d p : Nat) : (decodePacked d p).length = 6 := by simp [decodePacked]
+theorem length_decode (T : List (List Nat)) (i d : Nat) : (decode T i d).length = 6 := length_decodePacked _ _
+
+theorem psi_lt_enum {d i : Nat} (hi : i < psi 6 d) : i < (enum 6 d).length := by
+  rw [psi6_eq_length] at hi; unfold clmoModel at hi; simpa using hi
+
+theorem sum_decode {D d i : Nat} (hD : D ≤ 63) (hd : d ≤ D) (hi : i < psi 6 d) : (decode (mkTables D) i d).sum = d := by
+  rw [decode_table hD hd (psi_lt_enum hi)]
+  exact ((mem_enum 6 d _).mp (List.getElem_mem _)).2
+
+theorem length_addIdx (a b : List Nat) : (addIdx a b).length = min a.length b.length := by simp [addIdx]
+
+theorem sum_addIdx : ∀ (a b : List Nat), a.length = b.length → (addIdx a b).sum = a.sum + b.sum
+  | [], [], _ => rfl
+  | x :: a, y :: b, h => by
+    have := sum_addIdx a b (by simpa using h)
+    simp only [addIdx, List.zipWith_cons_cons, List.sum_cons] at this ⊢
+    omega
+  | [], _ :: _, h => by simp at h
+  | _ :: _, [], h => by simp at h
+
+theorem mono_addIdx {a b : List Nat} (ha : a.length = 6) (hb : b.length = 6) : mono (addIdx a b) = mono a + mono b := by
+  obtain ⟨a0, a1, a2, a3, a4, a5, rfl⟩ := length_six ha
+  obtain ⟨b0, b1, b2, b3, b4, b5, rfl⟩ := length_six hb
+  ext i
+  fin_cases i <;> simp [addIdx]
+
+theorem mono_set_pred {k : List Nat} (hk : k.length = 6) (v : Fin 6) :
+    mono (k.set v.val (k.getD v.val 0 - 1)) = mono k - Finsupp.single v 1 := by
+  obtain ⟨a0, a1, a2, a3, a4, a5, rfl⟩ := length_six hk
+  ext i
+  fin_cases v <;> fin_cases i <;> simp
+
+theorem mono_set_succ {k : List Nat} (hk : k.length = 6) (v : Fin 6) :
+    mono (k.set v.val (k.getD v.val 0 + 1)) = mono k + Finsupp.single v 1 := by
+  obtain ⟨a0, a1, a2, a3, a4, a5, rfl⟩ := length_six hk
+  ext i
+  fin_cases v <;> fin_cases i <;> simp
+
+theorem sum_set_pred {k : List Nat} (hk : k.length = 6) (v : Fin 6) (h : k.getD v.val 0 ≠ 0) :
+    (k.set v.val (k.getD v.val 0 - 1)).sum = k.sum - 1 := by
+  obtain ⟨a0, a1, a2, a3, a4, a5, rfl⟩ := length_six hk
+  fin_cases v <;> simp at h ⊢ <;> omega
+
+theorem sum_set_succ {k : List Nat} (hk : k.length = 6) (v : Fin 6) :
+    (k.set v.val (k.getD v.val 0 + 1)).sum = k.sum + 1 := by
+  obtain ⟨a0, a1, a2, a3, a4, a5, rfl⟩ := length_six hk
+  fin_cases v <;> simp <;> omega
+
+
+/-! ### multiplication -/
+
+section
+variable {K : Type} [CommSemiring K] [DecidableEq K]
+
+theorem sum_filterMap_range {α M : Type} [AddCommMonoid M] (f : Nat → Option α) (g : α → M) (n : Nat) :
+    (((List.range n).filterMap f).map g).sum = ∑ j ∈ Finset.range n, (f j).elim 0 g := by
+  induction n with
+  | zero => simp
+  | succ n ih =>
+    rw [List.range_succ, List.filterMap_append, List.map_append, List.sum_append, ih, Finset.sum_range_succ]
+    congr 1
+    cases h : f n <;> simp [h]
+
+/-- slot of a product monomial -/
+theorem enc_add {D dp dq i j : Nat} (hD : D ≤ 63) (hd : dp + dq ≤ D) (hi : i < psi 6 dp) (hj : j < psi 6 dq) :
+    ∃ idx, idx < psi 6 (dp + dq) ∧
+      encode (mkTables D) (addIdx (decode (mkTables D) i dp) (decode (mkTables D) j dq)) (dp + dq) = some idx ∧
+      mono (decode (mkTables D) idx (dp + dq)) = mono (decode (mkTables D) i dp) + mono (decode (mkTables D) j dq) := by
+  have hl : (addIdx (decode (mkTables D) i dp) (decode (mkTables D) j dq)).length = 6 := by
+    rw [length_addIdx, length_decode, length_decode]; rfl
+  have hs : (addIdx (decode (mkTables D) i dp) (decode (mkTables D) j dq)).sum = dp + dq := by
+    rw [sum_addIdx _ _ (by rw [length_decode, length_decode]), sum_decode hD (by omega) hi, sum_decode hD (by omega) hj]
+  obtain ⟨idx, h1, h2, h3⟩ := encode_of_degree hD hd hl hs
+  exact ⟨idx, h1, h2, by rw [h3, mono_addIdx (length_decode _ _ _) (length_decode _ _ _)]⟩
+
+theorem mulUpd_bound {D dp dq : Nat} (hD : D ≤ 63) (hd : dp + dq ≤ D) (p q : List K) (hp : p.length = psi 6 dp)
+    (hq : q.length = psi 6 dq) (i : Nat) : ∀ u ∈ mulUpd (mkTables D) p dp q dq i, u.1 < psi 6 (dp + dq) := by
+  intro u hu
+  unfold mulUpd at hu
+  simp only at hu
+  split at hu
+  · cases hu
+  · rename_i hpi
+    have hi : i < psi 6 dp := by
+      by_contra hc
+      apply hpi
+      rw [List.getD_eq_default _ _ (by omega)]
+    obtain ⟨j, hj, hu⟩ := List.mem_filterMap.mp hu
+    have hj' : j < psi 6 dq := by rw [← hq]; exact List.mem_range.mp hj
+    split at hu
+    · cases hu
+    · obtain ⟨idx, h1, h2, _⟩ := enc_add hD hd hi hj'
+      rw [h2] at hu
+      simp only [Option.some.injEq] at hu
+      rw [← hu]; exact h1
+
+theorem mulUpd_sum {D dp dq : Nat} (hD : D ≤ 63) (hd : dp + dq ≤ D) (p q : List K) (hq : q.length = psi 6 dq) (i : Nat)
+    (hi : i < psi 6 dp) :
+    ((mulUpd (mkTables D) p dp q dq i).map (term (mkTables D) (dp + dq))).sum
+      = monomial (mono (decode (mkTables D) i dp)) (p.getD i 0) * toMv (mkTables D) dq q := by
+  unfold mulUpd
+  simp only
+  split
+  · rename_i h; rw [h]; simp
+  · rw [sum_filterMap_range, toMv, Finset.mul_sum]
+    apply Finset.sum_congr rfl
+    intro j hj
+    have hj' : j < psi 6 dq := by rw [← hq]; exact Finset.mem_range.mp hj
+    split
+    · rename_i h; rw [h]; simp
+    · obtain ⟨idx, _, h2, h3⟩ := enc_add hD hd hi hj'
+      rw [h2]
+      simp only [Option.elim, term]
+      rw [h3, monomial_mul]
+
+/-- `_poly_mul` returns the block of the product polynomial — for every schedule of the `prange` -/
+theorem toMv_polyMulSched {D dp dq : Nat} (hD : D ≤ 63) (hd : dp + dq ≤ D) (p q : List K) (hp : p.length = psi 6 dp)
+    (hq : q.length = psi 6 dq) (sched : List (List Nat)) (hs : sched.flatten.Perm (List.range p.length)) :
+    toMv (mkTables D) (dp + dq) (polyMulSched (mkTables D) p dp q dq sched)
+      = toMv (mkTables D) dp p * toMv (mkTables D) dq q := by
+  unfold polyMulSched
+  rw [toMv_parKernel_perm _ _ _ p.length _ (mulUpd_bound hD hd p q hp hq) sched hs]
+  conv_rhs => rw [toMv, Finset.sum_mul]
+  apply Finset.sum_congr rfl
+  intro i hi
+  exact mulUpd_sum hD hd p q hq i (by rw [← hp]; exact Finset.mem_range.mp hi)
+
+theorem length_polyMulSched (T : List (List Nat)) (p q : List K) (dp dq : Nat) (sched : List (List Nat)) :
+    (polyMulSched T p dp q dq sched).length = psi 6 (dp + dq) := length_parKernel _ _ _
+
+/-! ### differentiation -/
+
+theorem diffUpd_bound {D d : Nat} (hD : D ≤ 63) (hd : d ≤ D) (p : List K) (hp : p.length = psi 6 d) (v : Fin 6) (i : Nat) :
+    ∀ u ∈ diffUpd (mkTables D) p v.val d i, u.1 < psi 6 (d - 1) := by
+  intro u hu
+  unfold diffUpd at hu
+  simp only at hu
+  split at hu
+  · cases hu
+  · rename_i hc
+    have hi : i < psi 6 d := by
+      by_contra h
+      apply hc
+      rw [List.getD_eq_default _ _ (by omega)]
+    split at hu
+    · cases hu
+    · rename_i he
+      have hl := length_decode (mkTables D) i d
+      have hl' : ((decode (mkTables D) i d).set v.val ((decode (mkTables D) i d).getD v.val 0 - 1)).length = 6 := by
+        rw [List.length_set]; exact hl
+      have hs := sum_set_pred hl v he
+      rw [sum_decode hD hd hi] at hs
+      obtain ⟨idx, h1, h2, _⟩ := encode_of_degree hD (d := d - 1) (by omega) hl' hs
+      rw [h2] at hu
+      simp only [List.mem_singleton] at hu
+      rw [hu]; exact h1
+
+theorem diffUpd_sum {D d : Nat} (hD : D ≤ 63) (hd : d ≤ D) (p : List K) (v : Fin 6) (i : Nat) (hi : i < psi 6 d) :
+    ((diffUpd (mkTables D) p v.val d i).map (term (mkTables D) (d - 1))).sum
+      = pderiv v (monomial (mono (decode (mkTables D) i d)) (p.getD i 0)) := by
+  unfold diffUpd
+  simp only
+  rw [pderiv_monomial]
+  split
+  · rename_i h; rw [h]; simp
+  · split
+    · rename_i he
+      have : (mono (decode (mkTables D) i d)) v = 0 := by rw [mono_apply]; exact he
+      rw [this]; simp
+    · rename_i he
+      have hl := length_decode (mkTables D) i d
+      have hl' : ((decode (mkTables D) i d).set v.val ((decode (mkTables D) i d).getD v.val 0 - 1)).length = 6 := by
+        rw [List.length_set]; exact hl
+      have hs := sum_set_pred hl v he
+      rw [sum_decode hD hd hi] at hs
+      obtain ⟨idx, _, h2, h3⟩ := encode_of_degree hD (d := d - 1) (by omega) hl' hs
+      rw [h2]
+      simp only [List.map_cons, List.map_nil, List.sum_cons, List.sum_nil, add_zero, term]
+      rw [h3, mono_set_pred hl v, mono_apply]
+
+/-- `_poly_diff` returns the block of the partial derivative — for every schedule of the `prange` -/
+theorem toMv_polyDiffSched {D d : Nat} (hD : D ≤ 63) (hd : d ≤ D) (p : List K) (hp : p.length = psi 6 d) (v : Fin 6)
+    (sched : List (List Nat)) (hs : sched.flatten.Perm (List.range p.length)) :
+    toMv (mkTables D) (d - 1) (polyDiffSched (mkTables D) p v.val d sched) = pderiv v (toMv (mkTables D) d p) := by
+  unfold polyDiffSched
+  split
+  · rename_i h0
+    subst h0
+    rw [toMv_zeros]
+    -- a degree-0 block is a constant
+    unfold toMv
+    rw [map_sum]
+    symm
+    apply Finset.sum_eq_zero
+    intro i hi
+    have hi' : i < psi 6 0 := by rw [← hp]; exact Finset.mem_range.mp hi
+    rw [pderiv_monomial]
+    have hsum := sum_decode hD hd hi'
+    have : (mono (decode (mkTables D) i 0)) v = 0 := by
+      rw [mono_apply]
+      have hm : (decode (mkTables D) i 0).getD v.val 0 ≤ (decode (mkTables D) i 0).sum := by
+        rw [List.getD_eq_getElem _ _ (by rw [length_decode]; exact v.isLt)]
+        exact le_sum_of_mem (List.getElem_mem _)
+      omega
+    rw [this]; simp
+  · rw [toMv_parKernel_perm _ _ _ p.length _ (diffUpd_bound hD hd p hp v) sched hs]
+    conv_rhs => rw [toMv, map_sum]
+    apply Finset.sum_congr rfl
+    intro i hi
+    exact diffUpd_sum hD hd p v i (by rw [← hp]; exact Finset.mem_range.mp hi)
+
+theorem length_polyDiffSched (T : List (List Nat)) (p : List K) (var d : Nat) (sched : List (List Nat)) :
+    (polyDiffSched T p var d sched).length = psi 6 (d - 1) := by
+  unfold polyDiffSched
+  split
+  · rename_i h; subst h; simp
+  · exact length_parKernel _ _ _
+
+end
+
+
+/-! ### coefficients -/
+
+theorem mono_injective {a b : List Nat} (ha : a.length = 6) (hb : b.length = 6) (h : mono a = mono b) : a = b := by
+  obtain ⟨a0, a1, a2, a3, a4, a5, rfl⟩ := length_six ha
+  obtain ⟨b0, b1, b2, b3, b4, b5, rfl⟩ := length_six hb
+  have h0 := DFunLike.congr_fun h (0 : Fin 6)
+  have h1 := DFunLike.congr_fun h (1 : Fin 6)
+  have h2 := DFunLike.congr_fun h (2 : Fin 6)
+  have h3 := DFunLike.congr_fun h (3 : Fin 6)
+  have h4 := DFunLike.congr_fun h (4 : Fin 6)
+  have h5 := DFunLike.congr_fun h (5 : Fin 6)
+  simp at h0 h1 h2 h3 h4 h5
+  subst_vars; rfl
+
+/-- distinct slots of a degree hold distinct monomials -/
+theorem decode_injective {D d i j : Nat} (hD : D ≤ 63) (hd : d ≤ D) (hi : i < psi 6 d) (hj : j < psi 6 d)
+    (h : mono (decode (mkTables D) i d) = mono (decode (mkTables D) j d)) : i = j := by
+  have h' := mono_injective (length_decode _ _ _) (length_decode _ _ _) h
+  rw [decode_table hD hd (psi_lt_enum hi), decode_table hD hd (psi_lt_enum hj)] at h'
+  exact (List.Nodup.getElem_inj_iff (nodup_enum 6 d)).mp h'
+
+section
+variable {K : Type} [CommSemiring K]
+
+/-- slot `i` of a block is the coefficient of the monomial `decode i` of the represented polynomial -/
+theorem coeff_toMv {D d : Nat} (hD : D ≤ 63) (hd : d ≤ D) (p : List K) (hp : p.length = psi 6 d) {i : Nat} (hi : i < psi 6 d) :
+    coeff (mono (decode (mkTables D) i d)) (toMv (mkTables D) d p) = p.getD i 0 := by
+  classical
+  unfold toMv
+  rw [coeff_sum]
+  rw [Finset.sum_eq_single i]
+  · rw [coeff_monomial, if_pos rfl]
+  · intro j hj hne
+    rw [coeff_monomial, if_neg]
+    intro h
+    exact hne (decode_injective hD hd (by rw [← hp]; exact Finset.mem_range.mp hj) hi h)
+  · intro h; exact absurd (Finset.mem_range.mpr (hp ▸ hi)) h
+
+/-- a block is determined by the polynomial it represents -/
+theorem toMv_injective {D d : Nat} (hD : D ≤ 63) (hd : d ≤ D) (p q : List K) (hp : p.length = psi 6 d) (hq : q.length = psi 6 d)
+    (h : toMv (mkTables D) d p = toMv (mkTables D) d q) : p = q := by
+  apply List.ext_getElem (by rw [hp, hq])
+  intro i h1 h2
+  have hi : i < psi 6 d := hp ▸ h1
+  have e1 := coeff_toMv hD hd p hp hi
+  have e2 := coeff_toMv hD hd q hq hi
+  rw [h, e2] at e1
+  rw [List.getD_eq_getElem _ _ h1, List.getD_eq_getElem _ _ h2] at e1
+  exact e1.symm
+
+end
+
+
+
+/-! ### integration -/
+section
+variable {K : Type} [Field K] [CharZero K] [DecidableEq K]
+
+theorem intUpd_bound {D d : Nat} (hD : D ≤ 63) (hd : d + 1 ≤ D) (p : List K) (hp : p.length = psi 6 d) (v : Fin 6) (i : Nat) :
+    ∀ u ∈ intUpd (mkTables D) p v.val d i, u.1 < psi 6 (d + 1) := by
+  intro u hu
+  unfold intUpd at hu
+  simp only at hu
+  split at hu
+  · cases hu
+  · rename_i hc
+    have hi : i < psi 6 d := by
+      by_contra h
+      apply hc
+      rw [List.getD_eq_default _ _ (by omega)]
+    have hl := length_decode (mkTables D) i d
+    have hl' : ((decode (mkTables D) i d).set v.val ((decode (mkTables D) i d).getD v.val 0 + 1)).length = 6 := by
+      rw [List.length_set]; exact hl
+    have hs := sum_set_succ hl v
+    rw [sum_decode hD (by omega) hi] at hs
+    obtain ⟨idx, h1, h2, _⟩ := encode_of_degree hD hd hl' hs
+    rw [h2] at hu
+    simp only [List.mem_singleton] at hu
+    rw [hu]; exact h1
+
+theorem intUpd_sum {D d : Nat} (hD : D ≤ 63) (hd : d + 1 ≤ D) (p : List K) (v : Fin 6) (i : Nat) (hi : i < psi 6 d) :
+    pderiv v (((intUpd (mkTables D) p v.val d i).map (term (mkTables D) (d + 1))).sum)
+      = monomial (mono (decode (mkTables D) i d)) (p.getD i 0) := by
+  unfold intUpd
+  simp only
+  split
+  · rename_i h; rw [h]; simp
+  · have hl := length_decode (mkTables D) i d
+    have hl' : ((decode (mkTables D) i d).set v.val ((decode (mkTables D) i d).getD v.val 0 + 1)).length = 6 := by
+      rw [List.length_set]; exact hl
+    have hs := sum_set_succ hl v
+    rw [sum_decode hD (by omega) hi] at hs
+    obtain ⟨idx, _, h2, h3⟩ := encode_of_degree hD hd hl' hs
+    rw [h2]
+    simp only [List.map_cons, List.map_nil, List.sum_cons, List.sum_nil, add_zero, term]
+    rw [h3, mono_set_succ hl v, pderiv_monomial]
+    have e1 : mono (decode (mkTables D) i d) + Finsupp.single v 1 - Finsupp.single v 1 = mono (decode (mkTables D) i d) := by
+      ext j; simp
+    rw [e1]
+    congr 1
+    have : (mono (decode (mkTables D) i d) + Finsupp.single v 1 : Fin 6 →₀ ℕ) v = (decode (mkTables D) i d).getD v.val 0 + 1 := by
+      simp
+    rw [this]
+    have hne : (((decode (mkTables D) i d).getD v.val 0 + 1 : ℕ) : K) ≠ 0 := Nat.cast_ne_zero.mpr (by omega)
+    exact div_mul_cancel₀ _ hne
+
+/-- `_poly_integrate`: the partial derivative of the returned block is the input block (antiderivative in `x_v`) -/
+theorem pderiv_toMv_polyIntegrate {D d : Nat} (hD : D ≤ 63) (hd : d + 1 ≤ D) (p : List K) (hp : p.length = psi 6 d) (v : Fin 6) :
+    pderiv v (toMv (mkTables D) (d + 1) (polyIntegrate (mkTables D) p v.val d)) = toMv (mkTables D) d p := by
+  unfold polyIntegrate
+  rw [toMv_applyUpd _ _ _ _ (by
+    intro u hu
+    obtain ⟨i, _, hi⟩ := List.mem_flatMap.mp hu
+    rw [length_zeros]; exact intUpd_bound hD hd p hp v i u hi), toMv_zeros, zero_add]
+  have : ∀ (l : List Nat), (∀ i ∈ l, i < psi 6 d) →
+      pderiv v (((l.flatMap (intUpd (mkTables D) p v.val d)).map (term (mkTables D) (d + 1))).sum)
+        = (l.map fun i => monomial (mono (decode (mkTables D) i d)) (p.getD i 0)).sum := by
+    intro l
+    induction l with
+    | nil => intro _; simp
+    | cons a as ih =>
+      intro h
+      rw [List.flatMap_cons, List.map_append, List.sum_append, map_add, ih (fun i hi => h i (by simp [hi])),
+        intUpd_sum hD hd p v a (h a (by simp)), List.map_cons, List.sum_cons]
+  rw [this _ (by intro i hi; rw [← hp]; exact List.mem_range.mp hi), sum_map_range_eq_finset]
+  rfl
+
+theorem length_polyIntegrate (T : List (List Nat)) (p : List K) (var d : Nat) :
+    (polyIntegrate T p var d).length = psi 6 (d + 1) := by simp [polyIntegrate]
+
+end
+
+/-! ### evaluation -/
+section
+variable {K : Type} [CommSemiring K] [DecidableEq K]
+
+theorem length_powTable (b : K) : ∀ n, (powTable b n).length = n + 1
+  | 0 => rfl
+  | n + 1 => by simp [powTable, length_powTable b n]
+
+theorem getD_powTable (b : K) : ∀ (n e : Nat), e ≤ n → (powTable b n).getD e 0 = b ^ e
+  | 0, e, h => by
+    have : e = 0 := by omega
+    subst this; simp [powTable]
+  | n + 1, e, h => by
+    simp only [powTable]
+    by_cases he : e ≤ n
+    · rw [List.getD_append _ _ _ _ (by rw [length_powTable]; omega)]
+      exact getD_powTable b n e he
+    · have : e = n + 1 := by omega
+      subst this
+      rw [List.getD_append_right _ _ _ _ (by rw [length_powTable])]
+      rw [length_powTable, Nat.sub_self, List.getD_cons_zero, getD_powTable b n n le_rfl, pow_succ]
+
+theorem foldl_add_range (f : Nat → K) (n : Nat) (s0 : K) :
+    (List.range n).foldl (fun s i => s + f i) s0 = s0 + ∑ i ∈ Finset.range n, f i := by
+  induction n with
+  | zero => simp
+  | succ n ih => rw [List.range_succ, List.foldl_append, ih, Finset.sum_range_succ]; simp [add_assoc]
+
+theorem foldl_range_eq_sum (F : K → Nat → K) (g : Nat → K) (n : Nat) (h : ∀ s i, i < n → F s i = s + g i) (s0 : K) :
+    (List.range n).foldl F s0 = s0 + ∑ i ∈ Finset.range n, g i := by
+  induction n with
+  | zero => simp
+  | succ n ih =>
+    rw [List.range_succ, List.foldl_append, ih (fun s i hi => h s i (by omega)), Finset.sum_range_succ]
+    simp only [List.foldl_cons, List.foldl_nil]
+    rw [h _ n (by omega), add_assoc]
+
+/-- `_poly_evaluate` is the value of the represented polynomial at the point -/
+theorem polyEvaluate_eq_eval {D d : Nat} (hD : D ≤ 63) (hd : d ≤ D) (p : List K) (hp : p.length = psi 6 d) (pt : List K)
+    (hpt : pt.length = 6) :
+    polyEvaluate (mkTables D) p d pt = eval (fun i : Fin 6 => pt.getD i.val 0) (toMv (mkTables D) d p) := by
+  unfold polyEvaluate
+  split
+  · rename_i h0
+    unfold toMv; rw [h0]; simp
+  · simp only
+    have key : ∀ i, i < psi 6 d →
+        (List.range 6).foldl (fun t v => t * ((pt.map fun b => powTable b d).getD v []).getD ((decode (mkTables D) i d).getD v 0) 0) (1 : K)
+          = (mono (decode (mkTables D) i d)).prod fun n e => (pt.getD n.val 0) ^ e := by
+      intro i hi
+      rw [Finsupp.prod_fintype _ _ (fun _ => pow_zero _), Fin.prod_univ_six]
+      have hsum := sum_decode hD hd hi
+      have hle : ∀ v : Fin 6, (decode (mkTables D) i d).getD v.val 0 ≤ d := by
+        intro v
+        have : (decode (mkTables D) i d).getD v.val 0 ≤ (decode (mkTables D) i d).sum := by
+          rw [List.getD_eq_getElem _ _ (by rw [length_decode]; exact v.isLt)]
+          exact le_sum_of_mem (List.getElem_mem _)
+        omega
+      have tb : ∀ v : Fin 6, ((pt.map fun b => powTable b d).getD v.val []).getD ((decode (mkTables D) i d).getD v.val 0) 0
+          = (pt.getD v.val 0) ^ ((decode (mkTables D) i d).getD v.val 0) := by
+        intro v
+        have hv : v.val < pt.length := by rw [hpt]; exact v.isLt
+        have e : (pt.map fun b => powTable b d).getD v.val [] = powTable (pt.getD v.val 0) d := by
+          rw [List.getD_eq_getElem?_getD, List.getElem?_map, List.getElem?_eq_getElem hv, List.getD_eq_getElem _ _ hv]
+          rfl
+        rw [e, getD_powTable _ _ _ (hle v)]
+      have h0 := tb 0; have h1 := tb 1; have h2 := tb 2; have h3 := tb 3; have h4 := tb 4; have h5 := tb 5
+      simp only [mono_apply]
+      simp only [Fin.val_zero, Fin.val_one] at h0 h1
+      have e2 : ((2 : Fin 6) : Nat) = 2 := rfl
+      have e3 : ((3 : Fin 6) : Nat) = 3 := rfl
+      have e4 : ((4 : Fin 6) : Nat) = 4 := rfl
+      have e5 : ((5 : Fin 6) : Nat) = 5 := rfl
+      rw [e2] at h2; rw [e3] at h3; rw [e4] at h4; rw [e5] at h5
+      simp only [List.range, List.range.loop, List.foldl_cons, List.foldl_nil, one_mul]
+      rw [h0, h1, h2, h3, h4, h5]
+      simp only [Fin.val_zero, Fin.val_one, e2, e3, e4, e5]
+    have body : ∀ (s : K) (i : Nat), i < psi 6 d →
+        (if p.getD i 0 = 0 then s else s + p.getD i 0 *
+          (List.range 6).foldl (fun t v => t * ((pt.map fun b => powTable b d).getD v []).getD ((decode (mkTables D) i d).getD v 0) 0) (1 : K))
+        = s + p.getD i 0 * ((mono (decode (mkTables D) i d)).prod fun n e => (pt.getD n.val 0) ^ e) := by
+      intro s i hi
+      rw [key i hi]
+      split
+      · rename_i h; rw [h]; simp
+      · rfl
+    rw [foldl_range_eq_sum _ _ p.length (fun s i hi => body s i (by omega)) 0, zero_add]
+    unfold toMv
+    rw [map_sum]
+    apply Finset.sum_congr rfl
+    intro i _
+    rw [eval_monomial]
+
+end
+
+
+
+/-! ### Poisson bracket -/
+section
+variable {K : Type} [CommRing K] [DecidableEq K]
+
+theorem length_polySub (p q : List K) : (polySub p q).length = min p.length q.length := by simp [polySub]
+
+theorem getD_polySub (p q : List K) (h : p.length = q.length) (j : Nat) :
+    (polySub p q).getD j 0 = p.getD j 0 - q.getD j 0 := by
+  unfold polySub
+  by_cases hj : j < p.length
+  · have hq : j < q.length := h ▸ hj
+    rw [List.getD_eq_getElem?_getD, List.getD_eq_getElem?_getD, List.getD_eq_getElem?_getD,
+      List.getElem?_zipWith, List.getElem?_eq_getElem hj, List.getElem?_eq_getElem hq]
+    rfl
+  · have hq : ¬ j < q.length := h ▸ hj
+    rw [List.getD_eq_default _ _ (by simp; omega), List.getD_eq_default _ _ (by omega),
+      List.getD_eq_default _ _ (by omega), sub_zero]
+
+theorem toMv_polySub (clmo : List (List Nat)) (d : Nat) (p q : List K) (h : p.length = q.length) :
+    toMv clmo d (polySub p q) = toMv clmo d p - toMv clmo d q := by
+  unfold toMv
+  rw [length_polySub, ← h, Nat.min_self, ← Finset.sum_sub_distrib]
+  apply Finset.sum_congr rfl
+  intro i _
+  rw [getD_polySub p q h, map_sub]
+
+theorem step_shape (r t1 t2 : List K) (n : Nat) (hr : r.length = n) (h1 : t1.length = n) (h2 : t2.length = n) :
+    (let r1 := if t1.length = r.length then polyAdd r t1 else r
+     if t2.length = r1.length then polySub r1 t2 else r1) = polySub (polyAdd r t1) t2 := by
+  have e1 : t1.length = r.length := by rw [h1, hr]
+  have e2 : t2.length = (polyAdd r t1).length := by rw [length_polyAdd, h1, hr, h2, Nat.min_self]
+  simp only [if_pos e1, if_pos e2]
+
+/-- the canonical bracket of two polynomials in `(q₁,q₂,q₃,p₁,p₂,p₃)` -/
+noncomputable def bracket (P Q : MvPolynomial (Fin 6) K) : MvPolynomial (Fin 6) K :=
+  ∑ m : Fin 3, (pderiv ⟨m.val, by omega⟩ P * pderiv ⟨m.val + 3, by omega⟩ Q
+              - pderiv ⟨m.val + 3, by omega⟩ P * pderiv ⟨m.val, by omega⟩ Q)
+
+theorem toMv_poissonStep {D dp dq : Nat} (hD : D ≤ 63) (hd : dp + dq ≤ D) (hdp : 1 ≤ dp) (hdq : 1 ≤ dq) (p q : List K)
+    (hp : p.length = psi 6 dp) (hq : q.length = psi 6 dq) (σ : Nat → List (List Nat))
+    (hσ : ∀ n, (σ n).flatten.Perm (List.range n)) (r : List K) (hr : r.length = psi 6 (dp + dq - 2)) (m : Fin 3) :
+    (poissonStep (mkTables D) σ p dp q dq r m.val).length = psi 6 (dp + dq - 2) ∧
+    toMv (mkTables D) (dp + dq - 2) (poissonStep (mkTables D) σ p dp q dq r m.val)
+      = toMv (mkTables D) (dp + dq - 2) r
+        + (pderiv ⟨m.val, by omega⟩ (toMv (mkTables D) dp p) * pderiv ⟨m.val + 3, by omega⟩ (toMv (mkTables D) dq q)
+           - pderiv ⟨m.val + 3, by omega⟩ (toMv (mkTables D) dp p) * pderiv ⟨m.val, by omega⟩ (toMv (mkTables D) dq q)) := by
+  have e : dp - 1 + (dq - 1) = dp + dq - 2 := by omega
+  have d1 := toMv_polyDiffSched hD (by omega : dp ≤ D) p hp ⟨m.val, by omega⟩ (σ p.length) (hσ _)
+  have d2 := toMv_polyDiffSched hD (by omega : dq ≤ D) q hq ⟨m.val + 3, by omega⟩ (σ q.length) (hσ _)
+  have d3 := toMv_polyDiffSched hD (by omega : dp ≤ D) p hp ⟨m.val + 3, by omega⟩ (σ p.length) (hσ _)
+  have d4 := toMv_polyDiffSched hD (by omega : dq ≤ D) q hq ⟨m.val, by omega⟩ (σ q.length) (hσ _)
+  have m1 := toMv_polyMulSched hD (by omega : dp - 1 + (dq - 1) ≤ D) _ _ (length_polyDiffSched (mkTables D) p m.val dp (σ p.length))
+    (length_polyDiffSched (mkTables D) q (m.val + 3) dq (σ q.length)) (σ _) (hσ _)
+  have m2 := toMv_polyMulSched hD (by omega : dp - 1 + (dq - 1) ≤ D) _ _ (length_polyDiffSched (mkTables D) p (m.val + 3) dp (σ p.length))
+    (length_polyDiffSched (mkTables D) q m.val dq (σ q.length)) (σ _) (hσ _)
+  have l1 := length_polyMulSched (mkTables D) (polyDiffSched (mkTables D) p m.val dp (σ p.length))
+    (polyDiffSched (mkTables D) q (m.val + 3) dq (σ q.length)) (dp - 1) (dq - 1)
+    (σ (polyDiffSched (mkTables D) p m.val dp (σ p.length)).length)
+  have l2 := length_polyMulSched (mkTables D) (polyDiffSched (mkTables D) p (m.val + 3) dp (σ p.length))
+    (polyDiffSched (mkTables D) q m.val dq (σ q.length)) (dp - 1) (dq - 1)
+    (σ (polyDiffSched (mkTables D) p (m.val + 3) dp (σ p.length)).length)
+  rw [e] at m1 m2 l1 l2
+  simp only at d1 d2 d3 d4
+  have shape := step_shape r _ _ _ hr l1 l2
+  have hstep : poissonStep (mkTables D) σ p dp q dq r m.val = _ := shape
+  rw [hstep]
+  have lr1 : (polyAdd r (polyMulSched (mkTables D) (polyDiffSched (mkTables D) p m.val dp (σ p.length)) (dp - 1)
+      (polyDiffSched (mkTables D) q (m.val + 3) dq (σ q.length)) (dq - 1)
+      (σ (polyDiffSched (mkTables D) p m.val dp (σ p.length)).length))).length = psi 6 (dp + dq - 2) := by
+    rw [length_polyAdd, l1, hr, Nat.min_self]
+  refine ⟨by rw [length_polySub, lr1, l2, Nat.min_self], ?_⟩
+  rw [toMv_polySub _ _ _ _ (by rw [lr1, l2]), toMv_polyAdd _ _ _ _ (by rw [hr, l1]), m1, m2, d1, d2, d3, d4]
+  ring
+
+/-- `_poly_poisson` returns the block of the Poisson bracket `Σ ∂P/∂qᵢ ∂Q/∂pᵢ − ∂P/∂pᵢ ∂Q/∂qᵢ` (for every scheduler of the
+nested parallel kernels); the zero-degree cases return the zero block, which is the bracket with a constant -/
+theorem toMv_polyPoisson {D dp dq : Nat} (hD : D ≤ 63) (hd : dp + dq ≤ D) (p q : List K)
+    (hp : p.length = psi 6 dp) (hq : q.length = psi 6 dq) (σ : Nat → List (List Nat))
+    (hσ : ∀ n, (σ n).flatten.Perm (List.range n)) :
+    toMv (mkTables D) (dp + dq - 2) (polyPoisson (mkTables D) σ p dp q dq)
+      = bracket (toMv (mkTables D) dp p) (toMv (mkTables D) dq q) := by
+  unfold polyPoisson
+  split
+  · rename_i h0
+    rw [toMv_zeros]
+    unfold bracket
+    symm
+    apply Finset.sum_eq_zero
+    intro m _
+    rcases h0 with h0 | h0
+    · subst h0
+      have a := toMv_polyDiffSched hD (by omega : 0 ≤ D) p hp ⟨m.val, by omega⟩ [List.range p.length] (by simp)
+      have b := toMv_polyDiffSched hD (by omega : 0 ≤ D) p hp ⟨m.val + 3, by omega⟩ [List.range p.length] (by simp)
+      simp only [polyDiffSched, if_true, toMv_zeros] at a b
+      rw [← a, ← b]; simp
+    · subst h0
+      have a := toMv_polyDiffSched hD (by omega : 0 ≤ D) q hq ⟨m.val, by omega⟩ [List.range q.length] (by simp)
+      have b := toMv_polyDiffSched hD (by omega : 0 ≤ D) q hq ⟨m.val + 3, by omega⟩ [List.range q.length] (by simp)
+      simp only [polyDiffSched, if_true, toMv_zeros] at a b
+      rw [← a, ← b]; simp
+  · rename_i h0
+    have hdp : 1 ≤ dp := by omega
+    have hdq : 1 ≤ dq := by omega
+    simp only [List.foldl_cons, List.foldl_nil]
+    have s0 := toMv_poissonStep hD hd hdp hdq p q hp hq σ hσ (zeros (psi 6 (dp + dq - 2))) (length_zeros _) (0 : Fin 3)
+    have s1 := toMv_poissonStep hD hd hdp hdq p q hp hq σ hσ _ s0.1 (1 : Fin 3)
+    have s2 := toMv_poissonStep hD hd hdp hdq p q hp hq σ hσ _ s1.1 (2 : Fin 3)
+    have e0 : ((0 : Fin 3) : Nat) = 0 := rfl
+    have e1 : ((1 : Fin 3) : Nat) = 1 := rfl
+    have e2 : ((2 : Fin 3) : Nat) = 2 := rfl
+    simp only [e0, e1, e2] at s0 s1 s2
+    rw [s2.2, s1.2, s0.2, toMv_zeros, zero_add]
+    unfold bracket
+    rw [Fin.sum_univ_three]
+    simp only [e0, e1, e2]
+
+theorem length_polyPoisson {D dp dq : Nat} (hD : D ≤ 63) (hd : dp + dq ≤ D) (hdp : 1 ≤ dp) (hdq : 1 ≤ dq) (p q : List K)
+    (hp : p.length = psi 6 dp) (hq : q.length = psi 6 dq) (σ : Nat → List (List Nat))
+    (hσ : ∀ n, (σ n).flatten.Perm (List.range n)) :
+    (polyPoisson (mkTables D) σ p dp q dq).length = psi 6 (dp + dq - 2) := by
+  unfold polyPoisson
+  rw [if_neg (by omega)]
+  simp only [List.foldl_cons, List.foldl_nil]
+  have s0 := toMv_poissonStep hD hd hdp hdq p q hp hq σ hσ (zeros (psi 6 (dp + dq - 2))) (length_zeros _) (0 : Fin 3)
+  have s1 := toMv_poissonStep hD hd hdp hdq p q hp hq σ hσ _ s0.1 (1 : Fin 3)
+  exact (toMv_poissonStep hD hd hdp hdq p q hp hq σ hσ _ s1.1 (2 : Fin 3)).1
+
+end
+
+
 end HitenModel.C06
